@@ -175,7 +175,31 @@ def _neutralise_mixed_case_index(case):
     return c
 
 
+_CTRLCH = _re.compile(r"[\x00-\x1f\x7f-\x9f]")
+
+
+def _ctrl_inside_redirect(case):
+    """a control character inside a URL from which (raw or cleaned) a redirection is inferred: same root cause as the open C04 finding"""
+    from ural import infer_redirection
+    for k in ("u", "v"):
+        x = case.get(k)
+        if x and _CTRLCH.search(x.strip(" \t\r\n\x0b\x0c")):
+            cleaned = _CTRLCH.sub("", x).strip()
+            if infer_redirection(cleaned) != cleaned or infer_redirection(x) != x:
+                return True
+    return False
+
+
+def _neutralise_ctrl(case):
+    c = dict(case)
+    for k in ("u", "v"):
+        if k in c:
+            c[k] = _CTRLCH.sub("", c[k]).strip()
+    return c
+
+
 TRIGGERS = {"cache-tail-with-dot-segment": (_cache_tail_dots, _neutralise_cache_dots),
+            "control-character-inside-a-redirecting-url": (_ctrl_inside_redirect, _neutralise_ctrl),
             "mixed-case-index-page": (_mixed_case_index, _neutralise_mixed_case_index),
             "escaped-question-mark-before-redirect-key": (_escaped_redirect_marker, _neutralise_escaped_marker),
             "upper-case-platform-route-word": (_upper_route_word, _neutralise_upper_route)}
